@@ -18,7 +18,7 @@ RULE = ("lengths {1,2,3,9,10,11,25,60} x topic mix {own, alternating, foreign-he
 ASSUMPTIONS = ["Redis and RabbitMQ are wire-level fakes (RabbitMQ: FIFO per priority, requeue to original position)",
                "single priority per run (priority order is randomised by design on redis)", "messages deliverable at enqueue time (no delay)"]
 EVAL_COUNTER = "deliveries_judged"
-REQUIRED = ["deliveries_judged", "mode_all", "mode_steady", "mode_reject", "returns_judged", "long_backlogs", "stale_delay_messages", "idle_polls_timed_out", "expired_messages_in_the_queue", "consume_calls_cancelled", "mode_pause", "re_enqueued_while_waiting"]
+REQUIRED = ["deliveries_judged", "mode_all", "mode_steady", "mode_reject", "returns_judged", "long_backlogs", "stale_delay_messages", "idle_polls_timed_out", "expired_messages_in_the_queue", "consume_calls_cancelled", "mode_pause", "re_enqueued_while_waiting", "messages_with_a_deferral_already_over"]
 CASE_TIMEOUT = 120
 
 LENGTHS = [1, 2, 3, 9, 10, 11, 25, 60]
@@ -53,6 +53,7 @@ def gen_cases(tier, seed):
                 cases.append({"kind": kind, "n": n, "mix": mix, "mode": mode, "prio": rnd.choice([0, 5, 9]), "mu": rnd.choice([None, None, 1, 4, 1000]),
                               "seed": rnd.randrange(10**6), "latency": None if kind == "mem" else rnd.choice([None, 0.002])})
                 cases[-1]["expired"] = mode in ("all", "steady") and cases[-1]["seed"] % 3 == 0
+                cases[-1]["past_until"] = mode in ("all", "steady", "reject") and cases[-1]["seed"] % 2 == 1
     return cases
 
 
@@ -170,6 +171,11 @@ async def scenario(loop, case, out, stats, fps, samples):
                 # order of everything else is what it would have been without it
                 params = P(timestamp=_dt.now() - _td(hours=1), ttl=_td(seconds=1))
                 expired.add(id_)
+            if case.get("past_until") and id_ not in expired and rnd.random() < 0.3:
+                # a one-off job whose deferred_until is not in the future (any more) when it is enqueued: deliverable at once,
+                # in line like everybody else
+                params = P(delay=DelayProperties(delay_until=_dt.now() - _td(seconds=rnd.choice([0.0, 0.5, 5, 3600]))))
+                stats["messages_with_a_deferral_already_over"] += 1
             if mode == "reject" and t == "own" and rnd.random() < 0.35:
                 params = P(retries=RetriesProperties(max_amount=3, already_tried=1), delay=DelayProperties(next_execution_time=_dt.now() - _td(seconds=rnd.choice([0.5, 5, 60]))))
                 stale.add(id_)
